@@ -109,6 +109,7 @@ func (rd *redisDict) rehash(bucketCount uint32) {
 }
 
 func (rd *redisDict) store(key string, val any) {
+	simYield("dict.store")
 	rd.dirty = true
 	fullHash := rd.hash(key)
 	item, bucketNumber := rd.findBucket(key, fullHash)
@@ -146,6 +147,7 @@ func (rd *redisDict) store(key string, val any) {
 }
 
 func (rd *redisDict) remove(key string) (exists bool) {
+	simYield("dict.remove")
 	hash := rd.hash(key)
 	item, bucketNumber := rd.findBucket(key, hash)
 	if item == nil || item.key != key {
